@@ -16,7 +16,7 @@ from .. import lin, nodewalk, paths, storewalk, tables, typestate
 from ..model import AnalysisError, Project, self_attr, walk_no_nested
 from ..report import Result, ctx_of
 from ..tables import RG, RE, RI, TRIGGERS
-from .common import site, src
+from .common import check_ctor_wiring, site, src
 from . import c02, c04
 
 PROP = 'C06'
@@ -41,6 +41,12 @@ def run(p: Project, tier: str) -> Result:
         c02.binding_checks(p, w, r, 'C06.R2', which=('cancel',))
         check_filter(p, w, r)
     check_nodes(p, r)
+    r.ctx = ''
+    r.rule('C06.R5', 'the Buffer hands its configured mode unchanged to its store', 1)
+    for ci in tables.edge_classes(p):
+        attr, skeys = tables.edge_store_attr(p, ci)
+        if ci.name == 'Buffer':
+            check_ctor_wiring(p, r, 'C06.R5', ci, attr, {'mode': 'mode'}, 'FIFO / LIFO is decided by the store, from the mode it was built with')
     return r
 
 
